@@ -337,8 +337,74 @@ func (p *Prog) stripNonNarrowing(v ssa.Value) ssa.Value {
 	}
 }
 
+// primitiveWritesReceiver: every write the encoder primitive fn makes into its buffer (element store, PutUintN,
+// copy) writes fn's receiver value through same-width conversions only.  n: the number of writes.
+func (p *Prog) primitiveWritesReceiver(fn *ssa.Function, buf *ssa.Parameter) (n int, bad string) {
+	for _, b := range fn.Blocks {
+		for _, ins := range b.Instrs {
+			switch x := ins.(type) {
+			case *ssa.Store:
+				if ia, ok := x.Addr.(*ssa.IndexAddr); ok && ia.X == ssa.Value(buf) {
+					n++
+					if p.stripSameWidth(x.Val) != ssa.Value(fn.Params[0]) {
+						bad = "the byte written at " + posOf(p, x) + " is " + describeVal(x.Val) + ", not the value itself"
+					}
+				}
+			case *ssa.Call:
+				if sc := x.Call.StaticCallee(); sc != nil && strings.Contains(fullName(sc), "bigEndian).PutUint") {
+					n++
+					if p.stripSameWidth(x.Call.Args[2]) != ssa.Value(fn.Params[0]) {
+						bad = "the integer written at " + posOf(p, x) + " is " + describeVal(x.Call.Args[2]) + ", not the value itself"
+					}
+				}
+				if bi, ok := x.Call.Value.(*ssa.Builtin); ok && bi.Name() == "copy" {
+					n++
+					if p.stripSameWidth(x.Call.Args[1]) != ssa.Value(fn.Params[0]) {
+						bad = "the bytes copied at " + posOf(p, x) + " are not the value itself"
+					}
+				}
+			}
+		}
+	}
+	return n, bad
+}
+
 func (p *Prog) checkCodecPairing(c *Check) {
 	decs, _ := p.wireDecoders()
+	// encoder primitives of types that have no decoder (used on the encoding side only): the co-simulation takes
+	// what such a primitive emits to be its receiver's value, so its body must write exactly that
+	hasDec := map[string]bool{}
+	for _, d := range decs {
+		if nt := namedOf(d.Params[0].Type().Underlying().(*types.Pointer).Elem()); nt != nil {
+			hasDec[nt.Obj().Name()] = true
+		}
+	}
+	for _, fn := range p.AllFuncs() {
+		if !isWirePrimitive(fn) || fn.Synthetic != "" || fn.Name() != "fill" {
+			continue
+		}
+		nt := namedOf(fn.Signature.Recv().Type())
+		if nt == nil || hasDec[nt.Obj().Name()] {
+			continue
+		}
+		kind := p.wireKindOf(nt)
+		cons := "encode-only wire type " + nt.Obj().Name() + " (" + kind + ")"
+		pos := p.Pos(fn.Pos())
+		c.Fn(qname(fn))
+		buf, _, _, _ := emissionsOf(p, fn)
+		if buf == nil || !writesBufferDirectly(fn, buf) {
+			continue // a composition of other emissions: those are checked where they are defined
+		}
+		nst, bad := p.primitiveWritesReceiver(fn, buf)
+		switch {
+		case bad != "":
+			c.Bad("R1.4", cons, pos, "an encoder primitive without a decoder counterpart must write its receiver as it is: "+bad)
+		case kind != "byte" && kind != "u16" && kind != "u32" && kind != "raw":
+			c.Unk("R1.4", cons, pos, "encoder primitive without a decoder counterpart, of a kind whose body is not checked here")
+		default:
+			c.OK("R1.4", cons, pos, fmt.Sprintf("%d write(s), each of the receiver's value through same-width conversions only", nst))
+		}
+	}
 	for _, d := range decs {
 		pt := d.Params[0].Type().Underlying().(*types.Pointer)
 		nt := namedOf(pt.Elem())
@@ -430,12 +496,16 @@ func (p *Prog) checkCodecPairing(c *Check) {
 					}
 				}
 			}
-			okE := false
+			okE, badE := false, false
 			for _, b := range enc.Blocks {
 				for _, ins := range b.Instrs {
 					if s, ok := ins.(*ssa.Store); ok {
-						if _, isIA := s.Addr.(*ssa.IndexAddr); isIA && p.stripSameWidth(s.Val) == ssa.Value(enc.Params[0]) {
-							okE = true
+						if _, isIA := s.Addr.(*ssa.IndexAddr); isIA {
+							if p.stripSameWidth(s.Val) == ssa.Value(enc.Params[0]) {
+								okE = !badE
+							} else {
+								okE, badE = false, true // some write puts something else than the value into the buffer
+							}
 						}
 					}
 				}
